@@ -360,6 +360,7 @@ def handler(payload):
             res["parsed"] = ob
             # create_config -> load_from_config -> export again (keys that cannot be recovered are re-supplied)
             d2 = os.path.join(d, "re")
+            shutil.rmtree(d2, ignore_errors=True)
             os.makedirs(d2)
             cfg2 = step(res, "create_config", lambda: p.create_config(d2))
             if cfg2 is None:
